@@ -497,6 +497,78 @@ func c10Scenario(w *vfWorld, r *vfkit.R, idx int) {
 		}
 	}
 
+	// directed: a second join request of a session which is already attached reaches the topic itself (the session
+	// normally filters it; the topic has its own guard for requests which slipped through while it was being
+	// set up). Delivered straight to the topic's queue; the session must still be counted once.
+	{
+		u := sc.users[len(sc.users)-1]
+		s := u.ss[0]
+		var srv *Session
+		globals.sessionStore.lock.Lock()
+		for _, x := range globals.sessionStore.sessCache {
+			if x.userAgent == "vf/"+s.c.name {
+				srv = x
+			}
+		}
+		globals.sessionStore.lock.Unlock()
+		if !s.attachedTo(sc.grp) {
+			step(func() {
+				f := s.c.sub(sc.grp, nil)
+				sc.logf("%s attaches group -> %s", s.c.name, codeStr(f))
+			})
+		}
+		if t := globals.hub.topicGet(sc.grp); srv != nil && t != nil && s.attachedTo(sc.grp) {
+			step(func() {
+				srv.inflightReqs.Add(1)
+				t.reg <- &ClientComMessage{Sub: &MsgClientSub{Id: "dup-join", Topic: sc.grp}, Id: "dup-join", Original: sc.grp, RcptTo: sc.grp,
+					AsUser: u.u.uid.UserId(), AuthLvl: int(auth.LevelAuth), Timestamp: types.TimeNow(), sess: srv, init: true}
+				sc.logf("a duplicate join of %s (already attached to the group) is delivered to the topic", s.c.name)
+			})
+			r.Hit("duplicate_join_counted_once")
+			step(func() {
+				s.c.leave(sc.grp, false)
+				sc.logf("%s leaves group", s.c.name)
+			})
+			if !settled("after a duplicate join and a leave") {
+				return
+			}
+			step(func() {
+				f := s.c.sub(sc.grp, nil)
+				sc.logf("%s attaches group -> %s", s.c.name, codeStr(f))
+			})
+		}
+	}
+
+	// directed: a p2p participant unsubscribes while the other one keeps the topic loaded and goes on publishing:
+	// nothing about the topic may reach the removed user any more
+	{
+		a, b := sc.users[0], sc.users[1]
+		an, bn := a.u.uid.UserId(), b.u.uid.UserId()
+		if !a.ss[0].attachedTo(bn) {
+			step(func() { a.ss[0].c.sub(bn, nil); sc.logf("%s attaches p2p with user %d", a.ss[0].c.name, b.i) })
+		}
+		if !b.ss[0].attachedTo(an) {
+			step(func() { b.ss[0].c.sub(an, nil); sc.logf("%s attaches p2p with user %d", b.ss[0].c.name, a.i) })
+		}
+		step(func() {
+			f := b.ss[0].c.leave(an, true)
+			sc.logf("%s unsubscribes from p2p with user %d -> %s", b.ss[0].c.name, a.i, codeStr(f))
+		})
+		step(func() {
+			f := a.ss[0].c.pub(bn, "to the one who left", false, nil)
+			sc.logf("%s publishes to p2p with user %d -> %s", a.ss[0].c.name, b.i, codeStr(f))
+			a.ss[0].c.note(bn, "kp", 0, nil)
+		})
+		r.Hit("removed_p2p_participant_hears_nothing")
+		step(func() {
+			f := b.ss[0].c.sub(an, nil)
+			sc.logf("%s attaches p2p with user %d -> %s", b.ss[0].c.name, a.i, codeStr(f))
+		})
+		if !settled("after a p2p unsubscription and re-subscription") {
+			return
+		}
+	}
+
 	steps := 10 + rng.Intn(10)
 	for i := 0; i < steps; i++ {
 		u := sc.users[rng.Intn(len(sc.users))]
